@@ -11,9 +11,8 @@ TAGGED-NESTED (v1 engine)   a nested class N that carries a `tag` and / or a `ta
 LAZY-LOAD (default engine)  the root sets `recursive_classes` (every dataclass-typed field is then resolved lazily, on first use, by the
            recursion-safe parser) next to the cascading LOAD settings raise_on_unknown_json_key / key_transform_with_load; nested classes
            with no Meta / a Meta of their own that sets other things / one that sets the same settings, at depth one and two, inside
-           Optional / list / dict value / tuple, with and without a self-reference of the root.  The nested part must load as through the
-           twin ROOT that declares the same Meta without `recursive_classes` (no self-reference there), and as the twin of the nested class
-           on its own.
+           Optional / list / dict value / tuple, with and without a self-reference of the root (the part then also sits inside a child
+           root).  The nested part must load (values, or kind of rejection with the same keys) as the twin of the nested class on its own.
 
 Both draw from generators of their own (derived from (property, seed)), so the case sequences of the older streams are untouched.
 """
@@ -35,8 +34,8 @@ RULE_V1 = ('TAGGED-NESTED FAMILY: a nested class with a tag / tag_key / v1_on_un
            'back through the root whenever the twin\'s own dump loads back.')
 RULE = ('LAZY-LOAD FAMILY: root with recursive_classes=True (with / without a self-reference) × raise_on_unknown_json_key × key_transform_with_load × '
         'nested classes with no Meta / an unrelated Meta / own load settings at depth one and two inside Optional / list / dict value / tuple × documents '
-        'with keys in several styles and unknown keys at either depth: same outcome as through a twin root declaring the same Meta without '
-        'recursive_classes and as the twin of the nested class on its own.')
+        'with keys in several styles and unknown keys, also inside a child root: same outcome as the twin of the nested class (declaring '
+        'effective(own, ROOT) itself) on its own.')
 
 V1_TAGGED_BASE = 2_000_000          # added to v1streams.OFFSET
 LAZYLOAD_BASE = 1_300_000
@@ -220,6 +219,161 @@ def run_tagged_v1(ctx, rng):
                              f'dump back)'[:1200], detail=src)
             else:
                 ctx.count('v1:tagged:twin-dump-not-loadable')
+        finally:
+            built.close()
+            built_t.close()
+
+
+# --------------------------------------------------------------------------- LAZY-LOAD (default engine, recursive_classes)
+
+WORDS = [('when', 'at'), ('opt', 'val'), ('num', 'count')]
+STYLERS = {
+    'snake': lambda ws: '_'.join(ws),
+    'camel': lambda ws: ws[0] + ''.join(w.title() for w in ws[1:]),
+    'pascal': lambda ws: ''.join(w.title() for w in ws),
+    'lisp': lambda ws: '-'.join(ws),
+    'upper': lambda ws: '_'.join(ws).upper(),
+}
+LOAD_TRANSFORMS = ['CAMEL', 'PASCAL', 'SNAKE', 'LISP', 'NONE']
+SHAPES = ['direct', 'optional', 'list', 'dictval', 'tuple', 'two-levels', 'two-levels', 'list-of-optional']
+UNRELATED = [{'key_transform_with_dump': 'SNAKE'}, {'skip_defaults': True}, {'marshal_date_time_as': 'TIMESTAMP'}, {}]
+
+
+def lazyload_case(rng):
+    fstyle = rng.choice(['snake', 'camel', 'camel', 'pascal'])
+    names = [STYLERS[fstyle](ws) for ws in WORDS]
+    m_r = {'recursive_classes': True}
+    if rng.random() < 0.7:
+        m_r['key_transform_with_load'] = rng.choice(LOAD_TRANSFORMS)
+    r = rng.random()
+    if r < 0.55:
+        m_r['raise_on_unknown_json_key'] = True
+    elif r < 0.65:
+        m_r['raise_on_unknown_json_key'] = False
+    recursive = rng.choice([None, None, None, True, False])
+    if recursive is not None:
+        m_r['recursive'] = recursive
+    # a self-reference of the root (what recursive_classes is there for); not under recursive=False, where the setting does not reach the
+    # root's own fields (recorded: findings/selfref-recursive-false-auto-tags-dump.py)
+    selfref = rng.choice([None, 'optional', 'optional', 'list']) if recursive is not False else None
+    r = rng.random()
+    if r < 0.45:
+        m_n = None
+    elif r < 0.75:
+        m_n = dict(rng.choice(UNRELATED))
+    else:
+        m_n = {}
+        if rng.random() < 0.6:
+            m_n['key_transform_with_load'] = rng.choice(LOAD_TRANSFORMS)
+        if rng.random() < 0.6:
+            m_n['raise_on_unknown_json_key'] = rng.choice([True, False])
+    shape = rng.choice(SHAPES)
+
+    def ncls(name, meta, wizard):
+        fields = [{'name': names[0]}, {'name': names[1], 'dflt': ['lit', None], 'factory': False}, {'name': names[2], 'dflt': ['lit', 0], 'factory': False}]
+        ftys = [[names[0], T('int')], [names[1], T('optional', T('str'))], [names[2], T('int')]]
+        return {'k': 'cls', 'info': {'name': name, 'fields': fields, 'wizard': wizard, 'meta': meta}, 'ftys': ftys}
+    n = ncls(model.fresh('N'), m_n, rng.random() < 0.5)
+    own = model.own_meta(n['info'])
+    eff = ref.effective_meta(own, ref.root_config(m_r))
+    m_t = {k: eff[k] for k in ('key_transform_with_load', 'raise_on_unknown_json_key') if k in eff}
+    twin = ncls(model.fresh('Twin'), m_t or None, rng.random() < 0.5)
+    mid = None
+    if shape == 'two-levels':
+        # an intermediate class, half of them with a Meta of their own that sets something else: its settings never reach N, and the
+        # root's still do
+        mid = {'k': 'cls', 'info': {'name': model.fresh('Mid'), 'fields': [{'name': 'deep_one'}], 'wizard': rng.random() < 0.5,
+                                    'meta': dict(rng.choice(UNRELATED)) if rng.random() < 0.5 else None},
+               'ftys': [['deep_one', link_ty(rng.choice(['direct', 'direct', 'optional', 'list']), n)]]}
+
+    def root_of(name, meta, selfref):
+        inner = {'direct': lambda: n, 'optional': lambda: T('optional', n), 'list': lambda: T('list', n), 'dictval': lambda: T('dict', T('str'), n),
+                 'tuple': lambda: T('tuple', T('int'), n), 'list-of-optional': lambda: T('list', T('optional', n)), 'two-levels': lambda: T('list', mid)}[shape]()
+        fields, ftys = [{'name': 'nested_fld'}], [['nested_fld', inner]]
+        if selfref:
+            back = {'k': 'ref', 'name': name}
+            fields.append({'name': 'again', 'dflt': ['lit', None] if selfref == 'optional' else ['list'], 'factory': selfref == 'list'})
+            ftys.append(['again', T('optional', back) if selfref == 'optional' else T('list', back)])
+        return {'k': 'cls', 'info': {'name': name, 'fields': fields, 'wizard': rng.random() < 0.5, 'meta': meta}, 'ftys': ftys}
+    root = root_of(model.fresh('R'), m_r, selfref)
+    docs = []
+    for kstyle in rng.sample(['snake', 'camel', 'pascal', 'lisp', 'upper', 'exact'], 3):
+        keys = names if kstyle == 'exact' else [STYLERS[kstyle](ws) for ws in WORDS]
+        part = {keys[0]: rng.choice([1, 7])}
+        if rng.random() < 0.7:
+            part[keys[1]] = rng.choice(['x', None])
+        if rng.random() < 0.7:
+            part[keys[2]] = rng.choice([0, 4])
+        if rng.random() < 0.4:
+            part['zzz_unknown'] = 1
+        docs.append((kstyle, part, selfref is not None and rng.random() < 0.5))
+    return dict(root=root, n=n, twin=twin, mid=mid, shape=shape, fstyle=fstyle, eff=eff, docs=docs, selfref=selfref, names=names, m_r=m_r, m_n=m_n)
+
+
+def run_lazy_load(ctx):
+    from dataclass_wizard import fromdict
+    rng = random.Random(f'{ctx.prop_id}:{ctx.seed}:lazy-load')
+    n = ctx.quick(260, 3000)
+    for j in range(n):
+        i = LAZYLOAD_BASE + j
+        if ctx.done(i):
+            break
+        cs = lazyload_case(rng)
+        root, twin, shape, mid, selfref = cs['root'], cs['twin'], cs['shape'], cs['mid'], cs['selfref']
+        try:
+            built = model.Built(root)
+        except Exception as e:
+            ctx.count('build_error')
+            ctx.notes.setdefault('build_errors', []).append(repr(e)[:300])
+            continue
+        try:
+            built_t = model.Built(twin)
+        except Exception as e:
+            built.close()
+            ctx.count('build_error')
+            ctx.notes.setdefault('build_errors', []).append(repr(e)[:300])
+            continue
+        try:
+            if not ctx.begin_case(i):
+                continue
+            src = dict(src=built.source + '\n# ---- twin\n' + built_t.source.replace(model.PRELUDE, ''))
+            l2 = None
+            if mid is not None:
+                t2 = mid['ftys'][0][1]
+                l2 = 'direct' if t2['k'] == 'cls' else t2['k']
+
+            def whole(part, deep):
+                inner = {'direct': part, 'optional': part, 'list': [part], 'dictval': {'k': part}, 'tuple': [1, part], 'list-of-optional': [part, None],
+                         'two-levels': [{'deep_one': link_doc(l2, part) if l2 else part}]}[shape]
+                doc = {'nested_fld': inner}
+                if deep:
+                    # the part sits inside a child root
+                    good = {cs['names'][0]: 1}
+                    g_inner = {'direct': good, 'optional': good, 'list': [good], 'dictval': {'k': good}, 'tuple': [1, good], 'list-of-optional': [good, None],
+                               'two-levels': [{'deep_one': link_doc(l2, good) if l2 else good}]}[shape]
+                    doc = {'nested_fld': g_inner, 'again': doc if selfref == 'optional' else [doc]}
+                return json.loads(json.dumps(doc))
+
+            def get_in(y, deep):
+                if deep:
+                    y = y.again if selfref == 'optional' else y.again[0]
+                v = y.nested_fld
+                if shape == 'two-levels':
+                    return unlink(l2, v[0].deep_one)
+                return {'direct': lambda: v, 'optional': lambda: v, 'list': lambda: v[0], 'dictval': lambda: v['k'], 'tuple': lambda: v[1],
+                        'list-of-optional': lambda: v[0]}[shape]()
+            for kstyle, part, deep in cs['docs']:
+                doc = whole(part, deep)
+                case = {'family': 'lazy-load', 'ty': root, 'shape': shape, 'field_style': cs['fstyle'], 'key_style': kstyle, 'doc': repr(doc)[:500],
+                        'effective': cs['eff'], 'twin': twin['info']['name'], 'selfref': selfref, 'inside_child_root': deep}
+                ctx.seen('cascade:lazy-load:' + shape, case)
+                want = outcome(load_outcome(lambda: fromdict(built_t.root, copy.deepcopy(part))), names=cs['names'])
+                got = outcome(load_outcome(lambda: fromdict(built.root, copy.deepcopy(doc))), lambda y: get_in(y, deep), cs['names'])
+                ctx.count('lazy-load:' + want[0])
+                if got != want:
+                    ctx.fail('cascade:lazy-load', case, f'nested part {part!r} (keys in {kstyle} style, fields in {cs["fstyle"]} style) loaded through the root (Meta '
+                             f'{cs["m_r"]!r}, own Meta {cs["m_n"]!r}) gives {got!r}; a class declaring the documented effective Meta {cs["eff"]!r} itself gives '
+                             f'{want!r}'[:1200], detail=src)
         finally:
             built.close()
             built_t.close()
